@@ -985,9 +985,11 @@ class ParserField:
         type = self.output_type
         if not type:
             return value
-        trans = context.transformer
         try:
-            return trans(value, type)  # noqa
+            # isolate the errors of this value in a sub-context (as parse_value does): an error that is
+            # excluded / preserved below must not stay collected in the instance's context
+            with context.enter(self.name) as new_context:
+                return new_context.transformer(value, type)  # noqa
         except Exception as e:
             error = exc.ParseError(
                 item=self.name,
